@@ -140,6 +140,9 @@ Definition pstep1 (c : cfg) (p : pcache) (o : op1) : pcache * res outv :=
   | Items => (p, Ok (OItems (ps_store p)))
   | EqDict d => (p, Ok (OBool (pcache_eq p d)))
   | NeDict d => (p, Ok (OBool (negb (pcache_eq p d))))
+  | UpdateSelf f => plift (fun _ => ONone) (psetitems c p f)
+  | EqOther => (p, Ok (OBool false))
+  | NeOther => (p, Ok (OBool true))
   end.
 
 (* copy(): every link of the list, oldest first, re-inserted into a new cache *)
@@ -201,3 +204,10 @@ Definition pagree_check (c : cfg) (init : list (K * V)) (steps : list (hop * obs
   | (p, Ok _) => pagree_walk c [p] steps
   | (_, Raise _) => false
   end.
+
+(* the pointer-level heap after a history *)
+Definition prun_heap_from (c : cfg) (h : list pcache) (ops : list hop) : list pcache :=
+  fold_left (fun h o => fst (fst (phstep c h o))) ops h.
+
+Definition prun_heap (c : cfg) (init : list (K * V)) (ops : list hop) : list pcache :=
+  prun_heap_from c [fst (pinit_cache c init)] ops.
